@@ -33,6 +33,34 @@ for be in ("v2", "v4", "v4-sodium", "v3", "v3-aws-lc"):
     VALIDATORS[(be, "PkeSecret")] = VALIDATORS[(be, "Secret")]
 POINT_VALIDITY = ("libsodium_rs::crypto_core::ed25519::is_valid_point", "libsodium_rs::crypto_sign::ed25519_pk_to_curve25519")
 
+def _is_rederive_compare(run_, r, g):
+    """Guard g of success path r is `embedded public half == public key derived from the seed`, equal edge taken, in any
+    spelling: a std PartialEq eq/ne call (on arrays, slices, references or key types) or a primitive ==/!=; one side is (a parse
+    of) the input bytes from offset 32 on, the other the library's derivation applied to input bytes 0..32."""
+    raw = g["cond"]
+    v = g["value"]
+    if not (isinstance(raw, tuple) and raw):
+        return False
+    if raw[0] == "call" and len(raw[2]) == 2 and "PartialEq" in raw[1] and raw[1].rsplit("::", 1)[-1] in ("eq", "ne"):
+        equal_edge = (v == 1) if raw[1].endswith("::eq") else (v == 0)
+        sides = [run_.norm.n(run_.interp.argval(r.path, a)) for a in raw[2]]
+    elif raw[0] == "binop" and raw[1] in ("Eq", "Ne") and len(raw) == 4:
+        equal_edge = (v == 1) if raw[1] == "Eq" else (v == 0)
+        sides = [run_.norm.n(run_.interp.argval(r.path, a)) for a in raw[2:4]]
+    else:
+        return False
+    if not equal_edge:
+        return False
+    B = ("in", "bytes")
+    def from_offset(t, lo):
+        return bool(subterms(t, lambda x: x and x[0] == "sl" and len(x) == 4 and contains(x[1], B) and x[2] == (lo, 0)))
+    def derived(t):
+        return ("keypair_from_seed" in repr(t) or bool(subterms(t, lambda x: x and x[0] == "PUB"))) and from_offset(t, 0) and not from_offset(t, 32)
+    def embedded(t):
+        return from_offset(t, 32) and not from_offset(t, 0) and "keypair_from_seed" not in repr(t) and not subterms(t, lambda x: x and x[0] == "PUB")
+    a, b = sides
+    return (derived(a) and embedded(b)) or (derived(b) and embedded(a))
+
 def _shape(t):
     """Structure of a rejection condition with the concrete key type abstracted away: method names, operators and constants."""
     if not isinstance(t, tuple) or not t:
@@ -215,12 +243,7 @@ def run(ctx):
                     for r in run_.ok_paths:
                         gs = [(run_.norm.n(g["cond"]), g["value"]) for g in r.path.guards]
                         if need == "#rederive":
-                            ok_ = any(isinstance(c, tuple) and c[0] == "call" and (c[1].endswith("PartialEq>::ne") and v == 0 or c[1].endswith("PartialEq>::eq") and v == 1)
-                                      and contains(c, ("in", "bytes")) for c, v in gs)
-                            ok_ = ok_ or any(isinstance(c, tuple) and c[0] == "binop" and c[1] in ("Ne", "Eq") and contains(c, ("in", "bytes")) and "keypair_from_seed" in repr(c) for c, v in gs)
-                            if not ok_:
-                                # slice comparison `a[..] != *b` compiles to a PartialEq call on slices/arrays
-                                ok_ = any(isinstance(c, tuple) and c[0] == "call" and "PartialEq" in c[1] and "keypair_from_seed" in repr(c) for c, v in gs)
+                            ok_ = any(_is_rederive_compare(run_, r, g) for g in r.path.guards)
                             if not ok_:
                                 probs.append("the public half is not re-derived from the seed and compared with the embedded half")
                         elif need == "#point-validity":
